@@ -53,6 +53,8 @@ NAMINGS = [
     ((("fluent", "p"), "a-b"), (("object", "s1"), "a b")),
 ]
 I_SLOTS = list(uprob.BASE_SLOTS)
+# conditional effects whose condition is (headed by) a quantifier: `when (exists(T v) {...})`
+QUICK_EXTRA = [(("a1.eff2", 31),), (("a1.eff2", 32),), (("a2.eff1", 31),)]
 Q2_SLOTS = ["a1.pre1", "a1.eff1", "a1.eff2", "a2.eff1", "goal", "init", "undef"]
 
 
@@ -93,6 +95,10 @@ def shards(tier, seed):
         if level == 0:
             for ni in range(1, len(NAMINGS)):
                 ids.append((level, (kind, (), ni)))
+    for cid in QUICK_EXTRA:  # non-core alternatives the quick tier must not skip
+        if ("inst", cid) not in seen:
+            seen.add(("inst", cid))
+            ids.append((1, ("inst", cid, 0)))
     return su.chunk_cases(ids, seed, per_level_chunks={0: 16, 1: 96, 2: 640})
 
 
